@@ -227,8 +227,12 @@ func (p *printer) block(e *Expr) {
 		}
 	}
 	sp := b.Spec
-	fmt.Fprintf(p.sb, "{ /*id%d*/ return mon.%s(%s.globalStore, %s, %d, mon.Spec{R: %d, E: %d, P: %d, B: %d, S: %d, Scr: %t, G: %t}, %s.text, %s.pos.line, %s.pos.col, %s.pos.offset",
-		b.ID, fn, c, st, b.ID, sp.R, sp.E, sp.P, sp.B, sp.S, sp.Scr, sp.G, c, c, c, c)
+	gsx := c + ".globalStore"
+	if p.g.IndirectGlobal {
+		gsx = "verifGS(" + c + ")"
+	}
+	fmt.Fprintf(p.sb, "{ /*id%d*/ return mon.%s(%s, %s, %d, mon.Spec{R: %d, E: %d, P: %d, B: %d, S: %d, Scr: %t, G: %t}, %s.text, %s.pos.line, %s.pos.col, %s.pos.offset",
+		b.ID, fn, gsx, st, b.ID, sp.R, sp.E, sp.P, sp.B, sp.S, sp.Scr, sp.G, c, c, c, c)
 	for _, l := range e.Params {
 		fmt.Fprintf(p.sb, ", mon.L{K: %q, V: %s}", l, l)
 	}
